@@ -61,6 +61,7 @@ ASSUMPTIONS = [
     "The response direction is covered by the end-to-end harness and by the response-head framing model only.",
 ]
 
+LINGERING_TIME = 10.0        # web.RequestHandler default lingering_time
 HANG = 60.0                  # virtual seconds; nothing in an exchange sleeps, so this is a hang
 BASE_HOST = "example.test"
 SIZES = [0, 1, 2, 3, 17, 100, 1000, 2047, 2048, 2049, 4096, 16384, 65535, 65536, 65537, 70000, 131073, 262147]
@@ -1077,7 +1078,16 @@ def oracle(case, out):
     if "exc" in cl:
         return [("client-exception", f"{cl['exc']}: {cl.get('exc_text')}")]
     if cl.get("elapsed", 0) >= 1.0:
-        bad.append(("stall", f"the exchange needed {cl['elapsed']:.0f} virtual seconds although nothing sleeps"))
+        # One sleeper is legitimate: the handler answered without reading the request body, the client stopped
+        # uploading once it had the response head (ClientSession._request closes the request payload there), and the
+        # response is delimited by the end of the connection - the server then ends it only after lingering
+        # (RequestHandler lingering_time, 10 s) for the rest of the body.  Only then, and only up to that time.
+        ka0 = cl.get("ka") or {}
+        lingering_ok = (rs.get("read", "read") == "none" and (rq.get("body") or {"kind": "none"})["kind"] != "none"
+                        and not ka0.get("client_open") and not ka0.get("server_open") and not cl.get("pooled0")
+                        and cl["elapsed"] <= LINGERING_TIME)
+        if not lingering_ok:
+            bad.append(("stall", f"the exchange needed {cl['elapsed']:.0f} virtual seconds although nothing sleeps"))
     if not cl.get("quiet"):
         bad.append(("not-quiescent", "the connection did not become quiescent after the exchange"))
     # --- request direction -------------------------------------------------------------------
